@@ -147,6 +147,27 @@ def stepWhy (c : Str) (latest : Option Spec) (requeued : Bool) (m m' : Mgr) : St
     | none => if deletedB lower c m m' then "" else "delete"
     | some spec => if appliedB lower c spec m' then "" else "applied"
 
+/-! ## during an event
+
+`s` is a state a concurrent reader can observe while the handler turns `m` into `m'` (after one of its manager
+writes): a name that resolves to the same `ClusterInfo` before and after the event resolves to it in `s` as well
+(names a cluster keeps — its own name, the server names an update does not touch, every name of every other
+cluster — never disappear, not even for a moment), and whatever resolves in `s` resolves to what it resolved to
+before or resolves to after (no transient capture). -/
+structure MidOK (m m' s : Mgr) : Prop where
+  kept : ∀ k p, m.look k = some p → m'.look k = some p → s.look k = some p
+  nostray : ∀ k q, s.look k = some q → m.look k = some q ∨ m'.look k = some q
+
+def midB (m m' s : Mgr) : Bool :=
+  (m.map.all fun e =>
+    match m.look e.1 with
+    | none => true
+    | some p => !(decide (m'.look e.1 = some p)) || decide (s.look e.1 = some p))
+  && (s.map.all fun e =>
+    match s.look e.1 with
+    | none => true
+    | some q => decide (m.look e.1 = some q) || decide (m'.look e.1 = some q))
+
 /-! ## TLS material follows the resolution -/
 
 /-- What the wrappers must answer in state `m`, said without the wrappers: the material of the cluster the
